@@ -1,6 +1,7 @@
 """C06 - checks with a closed-form criterion flag exactly what meets it."""
 import itertools
 
+import re
 import z3
 
 from harness import checklevel
@@ -693,6 +694,304 @@ def keypair_skeleton(rec, seed, p_bits):
                             function='replay_keypair_cmd', args={}), bad)
 
 
+class EncodedInt:
+  """rsa_info.n as a byte string: big-endian encoding of a symbolic integer
+  with a concrete number of leading zero bytes."""
+
+  def __init__(self, value, zeros):
+    self.value = value
+    self.zeros = zeros
+
+  def hex(self):
+    # the digits of the value are rendered through the placeholder mechanism
+    return '00' * self.zeros + '%x' % self.value
+
+
+def openssl_denylist(rec, seed, zeros):
+  """CheckOpensslDenylist: the string hashed is "Modulus=<n in upper-case
+  hex, no leading zeros>\\n", the list is asked for "RSA-<bits>:<last 20 hex
+  digits of its SHA-1>", and the verdict is the list's answer - for every
+  modulus value and independently of leading zero bytes of the encoding."""
+  m = _mods()
+  pb, rsc, util = m['pb'], m['rsc'], m['util']
+  rec.functions('paranoid_crypto.lib.rsa_single_checks:'
+                'CheckOpensslDenylist.Check')
+  rec.bounds('one key, modulus any integer in [2^63, 2^70), encoded with %d '
+             'leading zero bytes; hashlib.sha1 = injective token per input; '
+             'user-supplied Storage whose list answers arbitrarily' % zeros)
+  cexs = []
+  done = 0
+
+  def run(e):
+    n = ivar(e, 'n', lo=2**63, hi=2**70)
+    hashed, asked = [], []
+    answer = e.fresh('listed', 'bool')
+
+    class Sha:
+
+      def __init__(self, data=b''):
+        hashed.append(data)
+        self.tok = '%040x' % (0xabc000 + len(hashed))
+
+      def hexdigest(self):
+        return self.tok
+
+    class Hl:
+      sha1 = Sha
+
+    class Deny:
+
+      def __contains__(self, keystr):
+        asked.append(keystr)
+        return e.decide(answer)
+
+    class St:
+
+      def GetOpensslDenylist(self):
+        return Deny()
+
+    k = pb.RSAKey()
+    k.rsa_info.n = EncodedInt(n, zeros)
+    k.rsa_info.e = 65537
+    e.notes.update(n=n, key=k, hashed=hashed, asked=asked, answer=answer)
+    e.notes['format_placeholder_in'] = {'Check', 'hex'}
+    with stubs.patched(rsc, hashlib=Hl):
+      return rsc.CheckOpensslDenylist(St()).Check([k])
+
+  with stubs.patched(util, Bytes2Int=lambda b_: b_.value if isinstance(
+      b_, EncodedInt) else b_), \
+      stubs.patched(rsc, gmpy=checklevel._GMPY, logging=common.QUIET):
+    for p in pysym.explore(run, max_paths=100):
+      e = p.eng
+      rec.path(p.kind)
+      if p.kind == 'abort':
+        rec.inconclusive('path aborted: %s' % p.value)
+        continue
+      if p.kind != 'return':
+        r, mdl = e.feasible()
+        if r == 'sat':
+          cexs.append(('raises %r' % (p.value,), inputs_of(e, mdl)))
+        continue
+      n, k = e.notes['n'], e.notes['key']
+      hashed, asked = e.notes['hashed'], e.notes['asked']
+      ok = len(hashed) == 1 and len(asked) == 1
+      g = z3.BoolVal(ok)
+      if ok:
+        mt = re.match(rb'Modulus=([0-9A-F]+)\n$', bytes(hashed[0]))
+        if not mt:
+          g = z3.BoolVal(False)
+        else:
+          v = int(mt.group(1), 16)
+          g = z3.And(g, z3.BoolVal(not mt.group(1).startswith(b'0')),
+                     pysym.format_arg(e, v) == n.t)
+        L = pysym.model_int(e.model, n.t).bit_length() if e.model else 0
+        mt2 = re.match(r'RSA-(\d+):([0-9a-f]{20})$', asked[0])
+        if not mt2:
+          g = z3.BoolVal(False)
+        else:
+          Lq = int(mt2.group(1))
+          g = z3.And(g, n.t >= 2**(Lq - 1), n.t < 2**Lq,
+                     z3.BoolVal(mt2.group(2) == ('%040x' % 0xabc001)[20:]))
+      ents = [r_ for r_ in k.test_info.test_results
+              if r_.test_name == 'CheckOpensslDenylist']
+      if len(ents) != 1:
+        g = z3.BoolVal(False)
+      else:
+        g = z3.And(g, pysym.sbool(ents[0].result) == e.notes['answer'],
+                   pysym.sbool(k.test_info.weak) == e.notes['answer'],
+                   pysym.sbool(p.value) == e.notes['answer'])
+      _prove(rec, e, g, 'openssl denylist criterion', cexs, 'criterion')
+      done += 1
+  rec.sample(dict(check='CheckOpensslDenylist', zeros=zeros, paths=done))
+  rec.reach(1, 1 if done else 0)
+  for tag, cex in cexs[:2]:
+    bad, detail = replay_openssl()
+    rec.replayed()
+    rec.violation('rsa_single_checks.CheckOpensslDenylist.Check',
+                  tag.split(' ')[0], '%s; %s' % (tag, detail), cex,
+                  dict(module='harness.props.c06',
+                       function='replay_openssl_cmd', args={}), bad)
+
+
+def replay_openssl():
+  """Real check, real protobufs, a Storage listing reference fingerprints:
+  listed <=> flagged for minimal, zero-prefixed and short-top-nibble moduli."""
+  import hashlib  # pylint: disable=g-import-not-at-top
+  import gmpy2  # pylint: disable=g-import-not-at-top
+  m = _mods(fakes=False)
+  pb, rsc, util = m['pb'], m['rsc'], m['util']
+
+  def fp(n):
+    return 'RSA-%d:%s' % (n.bit_length(), hashlib.sha1(
+        ('Modulus=%X\n' % n).encode()).hexdigest()[20:])
+
+  np_ = lambda v: int(gmpy2.next_prime(v))
+  mods = [np_(2**1023 + 5) * np_(2**1024 + 77),
+          np_(2**1020) * np_(2**1023 + 999),      # top nibble 0: 2044 bits
+          np_(2**511 + 9) * np_(2**512 + 3),
+          2**64 + 13]
+  listed = {fp(mods[0]), fp(mods[1]), fp(mods[3])}
+
+  class St:
+
+    def GetOpensslDenylist(self):
+      return listed
+
+  chk = rsc.CheckOpensslDenylist(St())
+  for n in mods:
+    for zeros in (0, 1, 3):
+      k = pb.RSAKey()
+      k.rsa_info.n = b'\0' * zeros + util.Int2Bytes(n)
+      k.rsa_info.e = util.Int2Bytes(65537)
+      try:
+        ret = chk.Check([k])
+      except Exception as ex:  # pylint: disable=broad-except
+        return True, 'raised %r' % (ex,)
+      want = fp(n) in listed
+      ents = [r_ for r_ in k.test_info.test_results
+              if r_.test_name == 'CheckOpensslDenylist']
+      if len(ents) != 1 or ents[0].result != want or ret != want or \
+          k.test_info.weak != want:
+        return True, ('%d-bit modulus with %d leading zero bytes: listed=%r '
+                      'flagged=%r' % (n.bit_length(), zeros, want,
+                                      ents[0].result if ents else None))
+  return False, 'listed <=> flagged on every encoding tried'
+
+
+def replay_openssl_cmd():
+  bad, detail = replay_openssl()
+  print(detail)
+  return bad
+
+
+def keypair_generate_key(rec, seed, pbits, draws):
+  """generate_key's retry loop over an arbitrary sequence of candidate primes:
+  the pair returned is the one node-forge's rsa.generateKeyPair state machine
+  (p >= q re-established before every size test, a fresh q replacing the
+  smaller prime) ends with."""
+  m = _mods()
+  kg = m['kg']
+  bits = 2 * pbits
+  rec.functions('paranoid_crypto.lib.keypair_generator:Generator.generate_key')
+  rec.bounds('prime size %d bits (modulus %d bits); generate_prime replaced '
+             'by an arbitrary sequence of up to %d values in [2^%d, 2^%d); '
+             'longer retry sequences are bound-hit paths' %
+             (pbits, bits, draws, pbits - 1, pbits))
+  cexs = []
+  done = 0
+
+  def run(e):
+    g = kg.Generator(b'seed')
+    xs = []
+
+    def gen(size):
+      if len(xs) >= draws:
+        raise pysym.PathAbort('bound-hit: more than %d primes drawn' % draws)
+      x = ivar(e, 'x%d' % len(xs), lo=2**(pbits - 1), hi=2**pbits)
+      xs.append(x)
+      return x
+
+    g.generate_prime = gen
+    e.notes['xs'] = xs
+    return g.generate_key(bits)
+
+  class Hl:
+
+    class sha1:
+
+      def __init__(self, data=b''):
+        pass
+
+      def digest(self):
+        return b'\0' * 20
+
+  with stubs.patched(kg, hashlib=Hl):
+    for p in pysym.explore(run, max_paths=400):
+      e = p.eng
+      if p.kind == 'abort' and str(p.value).startswith('bound-hit'):
+        rec.path('bound-hit')
+        continue
+      rec.path(p.kind)
+      if p.kind == 'abort':
+        rec.inconclusive('path aborted: %s' % p.value)
+        continue
+      if p.kind != 'return':
+        r, mdl = e.feasible()
+        if r == 'sat':
+          cexs.append(('raises', inputs_of(e, mdl)))
+        continue
+      xs = [x.t for x in e.notes['xs']]
+      if len(xs) < 2:
+        cexs.append(('draws', {}))
+        continue
+      mx = lambda a, b_: z3.If(a >= b_, a, b_)
+      mn = lambda a, b_: z3.If(a >= b_, b_, a)
+      pp, qq = mx(xs[0], xs[1]), mn(xs[0], xs[1])
+      g = z3.BoolVal(True)
+      for k in range(2, len(xs)):
+        # a further draw happened exactly because the modulus was too short
+        g = z3.And(g, pp * qq < 2**(bits - 1))
+        pp, qq = mx(pp, xs[k]), mn(pp, xs[k])
+      g = z3.And(g, pp * qq >= 2**(bits - 1), T(p.value[0]) == pp,
+                 T(p.value[1]) == qq)
+      _prove(rec, e, g, 'generate_key state machine', cexs, 'state_machine')
+      done += 1
+  rec.sample(dict(fn='generate_key', paths=done))
+  rec.reach(1, 1 if done else 0)
+  for tag, cex in cexs[:2]:
+    bad, detail = replay_generate_key(pbits, [cex.get('x%d' % i) for i in
+                                              range(draws)])
+    rec.replayed()
+    rec.violation('keypair_generator.Generator.generate_key', tag, detail,
+                  cex, dict(module='harness.props.c06',
+                            function='replay_generate_key_cmd',
+                            args=dict(pbits=pbits, xs=[
+                                cex.get('x%d' % i) for i in range(draws)])),
+                  bad)
+
+
+def replay_generate_key(pbits, xs):
+  m = _mods(fakes=False)
+  kg = m['kg']
+  pbits = int(pbits)
+  bits = 2 * pbits
+  seqs = [[int(x) for x in xs if x is not None]]
+  # families: the size test failing once, twice, ... with the fresh prime
+  # above / below the one that is kept
+  lo, hi = 2**(pbits - 1), 2**pbits - 1
+  seqs += [[lo + 1, lo + 3, lo + 7, hi - 2, hi], [lo + 3, lo + 1, lo + 9, hi],
+           [lo + 1, lo + 2, hi, hi - 4], [lo + 5, lo + 1, lo + 3, lo + 2,
+                                          hi - 1, hi]]
+  for seq in seqs:
+    if len(seq) < 2:
+      continue
+    it = iter(seq + [hi] * 4)
+    g = kg.Generator(b'seed')
+    g.generate_prime = lambda size, it=it: next(it)
+    try:
+      got = tuple(int(v) for v in g.generate_key(bits))
+    except Exception as ex:  # pylint: disable=broad-except
+      return True, 'generate_key raised %r' % (ex,)
+    it = iter(seq + [hi] * 4)
+    p_, q_ = next(it), next(it)
+    while True:
+      if q_ > p_:
+        p_, q_ = q_, p_
+      if (p_ * q_).bit_length() == bits:
+        break
+      q_ = next(it)
+    if got != (p_, q_):
+      return True, ('candidate primes %r: generate_key returned %r, the '
+                    'reference state machine %r' % (seq[:6], got, (p_, q_)))
+  return False, 'generate_key follows the reference state machine'
+
+
+def replay_generate_key_cmd(pbits, xs):
+  bad, detail = replay_generate_key(pbits, xs)
+  print(detail)
+  return bad
+
+
 def replay_keypair():
   """Reference re-implementation of the keypair prime search against the
   real Generator for the 3 x 256 covered seeds' first-byte family (sizes
@@ -773,4 +1072,11 @@ def jobs(tier, seed):
   out.append(Job('ec_check_level', ec_check_level, {}, timeout=1200, cost=10))
   out.append(Job('keypair_skeleton', keypair_skeleton, dict(p_bits=64),
                  timeout=1200, cost=10))
+  for z_ in (0, 1, 2):
+    out.append(Job('openssl_denylist_z%d' % z_, openssl_denylist,
+                   dict(zeros=z_), timeout=600, cost=3))
+  for pb_, dr in ([(8, 4), (16, 4), (1024, 4)] if not thorough else [(8, 5), (16, 5),
+                                                           (32, 4), (1024, 4)]):
+    out.append(Job('keypair_generate_key_%d' % pb_, keypair_generate_key,
+                   dict(pbits=pb_, draws=dr), timeout=1200, cost=10))
   return out
